@@ -425,4 +425,263 @@ Section Emitted.
           eapply Forall_impl; [|exact K2]. intros e (p & Hp & Hpe). cbn beta.
           eapply elt_is_other; [exact Hpe|]. intros Heq. apply Hnotin. apply in_map_iff. exists p. split; [symmetry; exact Heq|exact Hp].
   Qed.
+
+  (* ---------------------------------------------------------------- attributes *)
+  Lemma emit_field_atts e dns f x ks ats :
+    emit_field e dns f x = Ok (ks, ats) ->
+    match fl_kind f with
+    | FElem => ats = []
+    | FAttr => ks = [] /\ ((x = NNone /\ ats = [])
+                          \/ exists v st s, x = NLeaf v /\ fl_ty f = DLeaf st /\ pr_leaf (st_base st) v = Ok s
+                                           /\ ats = [([], fl_name f, s)])
+    end.
+  Proof.
+    unfold emit_field. destruct (fl_kind f).
+    - destruct x as [|sv|d fs|xs].
+      + destruct (0 <? fl_min f); [|intros H; injection H as <- <-; reflexivity].
+        destruct (e _ _ _ _ _); try discriminate. cbn. intros H. injection H as <- <-. reflexivity.
+      + destruct (multi f); [discriminate|]. destruct (e _ _ _ _ _); try discriminate. cbn. intros H. injection H as <- <-. reflexivity.
+      + destruct (multi f); [discriminate|]. destruct (e _ _ _ _ _); try discriminate. cbn. intros H. injection H as <- <-. reflexivity.
+      + destruct (multi f).
+        * destruct (mapM _ xs); try discriminate. cbn. intros H. injection H as <- <-. reflexivity.
+        * destruct (e _ _ _ _ _); try discriminate. cbn. intros H. injection H as <- <-. reflexivity.
+    - destruct x as [|sv|d fs|xs]; try discriminate.
+      + intros H. injection H as <- <-. split; [reflexivity|]. left. split; reflexivity.
+      + destruct (fl_ty f) as [st| |]; try discriminate. destruct (pr_leaf (st_base st) sv) as [s| |] eqn:Ep; try discriminate.
+        cbn. intros H. injection H as <- <-. split; [reflexivity|]. right. exists sv, st, s. repeat split. exact Ep.
+  Qed.
+
+  Lemma lookup_att_app ns nm a b :
+    lookup_att ns nm (a ++ b) = match lookup_att ns nm a with Some v => Some v | None => lookup_att ns nm b end.
+  Proof.
+    induction a as [|[[x y] z] r IH]; [reflexivity|]. cbn. destruct (text_eqb x ns && text_eqb y nm); [reflexivity|exact IH].
+  Qed.
+
+  Lemma lookup_att_some_in ns nm l v : lookup_att ns nm l = Some v -> exists a, In a l /\ snd (fst a) = nm.
+  Proof.
+    induction l as [|[[x y] z] r IHl]; [discriminate|]. cbn.
+    destruct (text_eqb x ns && text_eqb y nm) eqn:E.
+    - intros _. apply andb_prop in E. destruct E as [_ E]. apply text_eqb_true_eq in E. exists (x, y, z). split; [left; reflexivity|exact E].
+    - intros H. destruct (IHl H) as (a & Ha & Hn). exists a. split; [right; exact Ha|exact Hn].
+  Qed.
+
+  (** the attributes written for the members: one per XmlAttribute member that holds a value *)
+  Lemma members_atts e : forall (F : list (text * fld)) vals kids atts,
+    NoDup (map (fun p => fl_name (snd p)) F) -> length vals = length F ->
+    emit_members e F vals = Ok (kids, atts) ->
+    (forall a, In a atts -> exists p, In p F /\ is_elem (snd p) = false /\ fst (fst a) = [] /\ snd (fst a) = fl_name (snd p))
+    /\ (forall p x, In (p, x) (combine F vals) -> is_elem (snd p) = false ->
+          lookup_att [] (fl_name (snd p)) atts
+          = match x, fl_ty (snd p) with
+            | NLeaf v, DLeaf st => Some (pr_text (st_base st) v)
+            | _, _ => None
+            end).
+  Proof.
+    induction F as [|[ns f] r IH]; intros vals kids atts Hnd Hlen Hemit.
+    - cbn in Hemit. injection Hemit as <- <-. split; [intros a []|intros p x []].
+    - destruct vals as [|x0 vs]; [discriminate|]. cbn [emit_members hd tl] in Hemit.
+      destruct (emit_field e ns f x0) as [[ks1 as1]| |] eqn:E1; try discriminate. cbn [bind] in Hemit.
+      destruct (emit_members e r vs) as [[ks2 as2]| |] eqn:E2; try discriminate. cbn [bind fst snd] in Hemit.
+      injection Hemit as <- <-. inversion Hnd as [|? ? Hnotin Hnd']; subst.
+      destruct (IH vs ks2 as2 Hnd' ltac:(cbn in Hlen; lia) E2) as [A1 A2].
+      pose proof (emit_field_atts e ns f x0 ks1 as1 E1) as Hf.
+      assert (Has1 : forall s, In s as1 -> fl_kind f = FAttr /\ fst (fst s) = [] /\ snd (fst s) = fl_name f).
+      { intros s Hs. destruct (fl_kind f); [subst as1; destruct Hs|].
+        destruct Hf as (_ & [[_ ->]|(v & st & t & _ & _ & _ & ->)]); [destruct Hs|].
+        destruct Hs as [<-|[]]. repeat split. }
+      split.
+      + intros a Ha. apply in_app_iff in Ha. destruct Ha as [Ha|Ha].
+        * exists (ns, f). split; [left; reflexivity|]. destruct (Has1 a Ha) as (Hk & H1 & H2).
+          unfold is_elem. cbn [snd]. rewrite Hk. repeat split; assumption.
+        * destruct (A1 a Ha) as (p & Hp & Hrest). exists p. split; [right; exact Hp|exact Hrest].
+      + intros p x Hin Hattr. cbn [combine] in Hin. rewrite lookup_att_app. destruct Hin as [Hin|Hin].
+        * injection Hin as <- <-. cbn [snd] in *.
+          unfold is_elem in Hattr. destruct (fl_kind f); [discriminate|].
+          destruct Hf as (_ & [[-> ->]|(v & st & t & -> & Et & Ep & ->)]).
+          -- cbn [lookup_att]. destruct (lookup_att [] (fl_name f) as2) as [w|] eqn:El; [|reflexivity].
+             exfalso.
+             destruct (lookup_att_some_in _ _ _ _ El) as (a & Ha & Hn).
+             destruct (A1 a Ha) as (p & Hp & _ & _ & Hnm). apply Hnotin. apply in_map_iff. exists p. split; [congruence|exact Hp].
+          -- rewrite Et. cbn [lookup_att]. rewrite !text_eqb_same. cbn [andb]. unfold pr_text. rewrite Ep. reflexivity.
+        * assert (Hl1 : lookup_att [] (fl_name (snd p)) as1 = None).
+          { assert (Hp : In p r) by (eapply in_combine_l; exact Hin).
+            destruct (lookup_att [] (fl_name (snd p)) as1) as [w|] eqn:El; [|reflexivity].
+            exfalso. destruct (lookup_att_some_in _ _ _ _ El) as (a & Ha & Hn).
+            destruct (Has1 a Ha) as (_ & _ & Hb). apply Hnotin. apply in_map_iff. exists p. split; [congruence|exact Hp]. }
+          rewrite Hl1. apply A2; assumption.
+  Qed.
+
+
+  (* ---------------------------------------------------------------- all members of a class *)
+  Lemma emit_members_app e : forall (A B : list (text * fld)) vals kids atts,
+    emit_members e (A ++ B) vals = Ok (kids, atts) ->
+    exists k1 a1 k2 a2,
+      emit_members e A (firstn (length A) vals) = Ok (k1, a1)
+      /\ emit_members e B (skipn (length A) vals) = Ok (k2, a2)
+      /\ kids = k1 ++ k2 /\ atts = a1 ++ a2.
+  Proof.
+    induction A as [|[ns f] r IH]; intros B vals kids atts H.
+    - cbn in *. exists [], [], kids, atts. repeat split. exact H.
+    - cbn [app emit_members] in H.
+      destruct (emit_field e ns f (hd NNone vals)) as [[ks1 as1]| |] eqn:E1; try discriminate. cbn [bind] in H.
+      destruct (emit_members e (r ++ B) (tl vals)) as [[ks2 as2]| |] eqn:E2; try discriminate. cbn [bind fst snd] in H.
+      injection H as <- <-. destruct (IH B (tl vals) ks2 as2 E2) as (k1 & a1 & k2 & a2 & H1 & H2 & -> & ->).
+      exists (ks1 ++ k1), (as1 ++ a1), k2, a2.
+      assert (Hhd : hd NNone (firstn (length ((ns, f) :: r)) vals) = hd NNone vals) by (destruct vals; reflexivity).
+      assert (Htl : tl (firstn (length ((ns, f) :: r)) vals) = firstn (length r) (tl vals)).
+      { destruct vals; cbn; [rewrite firstn_nil; reflexivity|reflexivity]. }
+      assert (Hsk : skipn (length ((ns, f) :: r)) vals = skipn (length r) (tl vals)).
+      { destruct vals; cbn; [rewrite skipn_nil; reflexivity|reflexivity]. }
+      cbn [emit_members]. rewrite Hhd, Htl, Hsk, E1, H1. cbn [bind fst snd]. rewrite !app_assoc. repeat split. exact H2.
+  Qed.
+
+  Lemma NoDup_app_r {A} (a b : list A) : NoDup (a ++ b) -> NoDup b.
+  Proof. induction a as [|x a IH]; [auto|]. cbn. intros H. inversion H; subst. auto. Qed.
+
+  Lemma nodup_text_NoDup l : nodup_text l = true -> NoDup l.
+  Proof.
+    induction l as [|x r IH]; cbn; [constructor|]. intros H. apply andb_prop in H. destruct H as [H1 H2].
+    constructor; [|apply IH; exact H2]. intros Hin. apply negb_true_iff in H1.
+    assert (text_mem x r = true).
+    { clear -Hin. induction r as [|y r IH]; [destruct Hin|]. cbn. destruct Hin as [->|Hin]; [rewrite text_eqb_same; reflexivity|].
+      rewrite (IH Hin). apply orb_true_r. }
+    congruence.
+  Qed.
+
+  Lemma count_nonempty_lens (runs : list (list xnode)) :
+    count_nonempty runs = length (filter (fun n => 0 <? n) (map len_nodes runs)).
+  Proof.
+    unfold count_nonempty. induction runs as [|r rs IH]; [reflexivity|]. cbn [filter map].
+    destruct r as [|x r]; cbn [nonempty].
+    - change (len_nodes []) with 0. cbn. exact IH.
+    - assert (0 <? len_nodes (x :: r) = true) as -> by (unfold len_nodes; cbn [length]; lia). cbn. f_equal. exact IH.
+  Qed.
+
+  Definition item_known (i : item) : Prop := exists cl, In cl U /\ In i (k_items cl).
+
+  Lemma item_known_flds i f : item_known i -> In f (item_flds i) ->
+    exists cl, In cl U /\ In f (k_own cl).
+  Proof.
+    intros (cl & Hcl & Hi) Hf. exists cl. split; [exact Hcl|]. unfold k_own. apply in_flat_map. exists i. split; assumption.
+  Qed.
+
+  Lemma item_known_wf i : item_known i ->
+    match i with
+    | IOne f => fld_ok (length U) f = true
+    | IGroup _ ms => ms <> [] /\ forall f, In f ms -> fl_min f = 0 /\ fld_ok (length U) f = true /\ is_elem f = true
+                                                  /\ fl_default f = None
+    end.
+  Proof.
+    intros (cl & Hcl & Hi). apply In_nth_error in Hcl. destruct Hcl as [c Hc].
+    destruct (klass_items_wf U c cl Hwf Hc) as (_ & Hg & Ho). destruct i as [f|g ms].
+    - apply Ho. exact Hi.
+    - destruct (Hg g ms Hi) as (Hne & Hel & Hm). split; [exact Hne|]. intros f Hf. destruct (Hm f Hf) as (M1 & M2 & M3).
+      rewrite forallb_forall in Hel. repeat split; auto.
+  Qed.
+
+  Lemma fld_ok_max f : fld_ok (length U) f = true -> fl_min f = 0 -> True.
+  Proof. trivial. Qed.
+
+  Lemma members_match k : emit_valid_at k -> forall (L : list (text * item)) vals kids atts,
+    (forall p, In p L -> item_known (snd p)) ->
+    NoDup (map (fun p => fl_name (snd p)) (L_flds L)) ->
+    items_conf U (vconf U extra k) (map snd L) vals = true ->
+    emit_members (emit U k) (L_flds L) vals = Ok (kids, atts) ->
+    Forall (fun e => exists p, In p (L_flds L) /\ elt_is (fst p) (fl_name (snd p)) e = true) (map wire kids)
+    /\ groups_single L (map wire kids) = true
+    /\ forall m, (k + length U < m)%nat -> items_match U (velem_m m) L (map wire kids) = true.
+  Proof.
+    intros IHk. induction L as [|[ns [f|g ms]] r IH]; intros vals kids atts Hkn Hnd Hconf Hemit.
+    - cbn in Hemit. injection Hemit as <- <-. repeat split. constructor.
+    - (* a single member *)
+      cbn [map snd items_conf] in Hconf. destruct vals as [|x vs]; [discriminate|].
+      apply andb_prop in Hconf. destruct Hconf as [Cf Cr].
+      cbn [L_flds flat_map fst snd item_flds tagged map app] in Hemit, Hnd. fold (L_flds r) in Hemit, Hnd.
+      cbn [emit_members hd tl] in Hemit.
+      destruct (emit_field (emit U k) ns f x) as [[ks1 as1]| |] eqn:E1; try discriminate. cbn [bind] in Hemit.
+      destruct (emit_members (emit U k) (L_flds r) vs) as [[ks2 as2]| |] eqn:E2; try discriminate. cbn [bind fst snd] in Hemit.
+      injection Hemit as <- <-. inversion Hnd as [|? ? Hnotin Hnd']; subst.
+      assert (Hkn' : forall p, In p r -> item_known (snd p)) by (intros p Hp; apply Hkn; right; exact Hp).
+      destruct (IH vs ks2 as2 Hkn' Hnd' Cr E2) as (K2 & G2 & M2).
+      pose proof (Hkn (ns, IOne f) (or_introl eq_refl)) as Hknown. cbn [snd] in Hknown.
+      pose proof (item_known_wf _ Hknown) as Hok. cbn beta iota in Hok.
+      destruct (item_known_flds (IOne f) f Hknown (or_introl eq_refl)) as (cl & Hcl & Hfin).
+      assert (Kr : Forall (fun e => exists p, In p (L_flds ((ns, IOne f) :: r)) /\ elt_is (fst p) (fl_name (snd p)) e = true) (map wire ks2)).
+      { eapply Forall_impl; [|exact K2]. intros e (p & Hp & Hpe). exists p. split; [|exact Hpe].
+        cbn [L_flds flat_map fst snd item_flds tagged map app]. right. exact Hp. }
+      destruct (is_elem f) eqn:He.
+      + destruct (emit_field_elem k cl ns f x ks1 as1 IHk Hcl Hfin Hok He Cf E1) as (_ & R1 & R2 & R3).
+        assert (Hhd : hd_is ns (fl_name f) (map wire ks2) = false).
+        { rewrite <- (app_nil_r (map wire ks2)). apply hd_is_app_false; [|reflexivity].
+          eapply Forall_impl; [|exact K2]. intros e (p & Hp & Hpe). cbn beta.
+          eapply elt_is_other; [exact Hpe|]. intros Heq. apply Hnotin. apply in_map_iff. exists p. split; [symmetry; exact Heq|exact Hp]. }
+        rewrite map_app. split; [|split].
+        * apply Forall_app. split; [|exact Kr]. apply Forall_forall. intros e He'. exists (ns, f). split; [left; reflexivity|].
+          rewrite forallb_forall in R1. apply R1. exact He'.
+        * cbn [groups_single]. rewrite He, (span_name_app ns (fl_name f) _ _ R1 Hhd). cbn [snd]. exact G2.
+        * intros m Hm. cbn [items_match]. rewrite He, (span_name_app ns (fl_name f) _ _ R1 Hhd).
+          rewrite (M2 m Hm), andb_true_r. unfold run_valid. rewrite (R3 m Hm), andb_true_r, occ_ok_fld, R2.
+          unfold field_conf6 in Cf. apply andb_prop in Cf. exact (proj1 Cf).
+      + pose proof (emit_field_atts _ ns f x ks1 as1 E1) as Ha. pose proof He as He2. unfold is_elem in He2.
+        destruct (fl_kind f); [discriminate|].
+        destruct Ha as [-> _]. cbn [app]. split; [exact Kr|]. split.
+        * cbn [groups_single]. rewrite He. exact G2.
+        * intros m Hm. cbn [items_match]. rewrite He. apply M2. exact Hm.
+    - (* a choice group *)
+      cbn [map snd items_conf] in Hconf. set (n := length ms) in *. split_all.
+      cbn [L_flds flat_map fst snd item_flds] in Hemit, Hnd. fold (L_flds r) in Hemit, Hnd.
+      destruct (emit_members_app _ _ _ _ _ _ Hemit) as (k1 & a1 & k2 & a2 & E1 & E2 & -> & ->).
+      assert (Hlt : length (tagged ns ms) = n) by (unfold tagged; rewrite map_length; reflexivity).
+      rewrite Hlt in E1, E2.
+      rewrite map_app in Hnd. pose proof (NoDup_app_r _ _ Hnd) as Hnd2.
+      assert (Hkn' : forall p, In p r -> item_known (snd p)) by (intros p Hp; apply Hkn; right; exact Hp).
+      assert (Cr : items_conf U (vconf U extra k) (map snd r) (skipn n vals) = true) by assumption.
+      destruct (IH (skipn n vals) k2 a2 Hkn' Hnd2 Cr E2) as (K2 & G2 & M2).
+      pose proof (Hkn (ns, IGroup g ms) (or_introl eq_refl)) as Hknown. cbn [snd] in Hknown.
+      destruct (item_known_wf _ Hknown) as (Hne & Hms).
+      destruct Hknown as (cl & Hcl & Hitem).
+      assert (Hdisj : forall f, In f ms -> forall p, In p (L_flds r) -> fl_name f <> fl_name (snd p)).
+      { intros f Hf p Hp Heq. clear -Hnd Hf Hp Heq.
+        induction ms as [|f0 ms' IHm]; [destruct Hf|]. cbn [tagged map app] in Hnd. inversion Hnd as [|? ? Hn1 Hn2]; subst.
+        destruct Hf as [->|Hf]; [|apply IHm; assumption].
+        apply Hn1. apply in_app_iff. right. apply in_map_iff. exists p. split; [symmetry; exact Heq|exact Hp]. }
+      assert (Hnd1 : NoDup (map (fun p => fl_name (snd p)) (tagged ns ms))).
+      { clear -Hnd. induction ms as [|f0 ms' IHm]; [constructor|]. cbn [tagged map app] in *. inversion Hnd as [|? ? Hn1 Hn2]; subst.
+        constructor; [|apply IHm; exact Hn2]. intros Hin. apply Hn1. apply in_app_iff. left. exact Hin. }
+      assert (P1 : forall p, In p (tagged ns ms) -> In (snd p) (k_own cl) /\ fld_ok (length U) (snd p) = true /\ is_elem (snd p) = true).
+      { intros p Hp. unfold tagged in Hp. apply in_map_iff in Hp. destruct Hp as (f & <- & Hf). cbn [snd].
+        destruct (Hms f Hf) as (_ & Q2 & Q3 & _). repeat split; try assumption.
+        unfold k_own. apply in_flat_map. exists (IGroup g ms). split; [exact Hitem|exact Hf]. }
+      assert (P2 : forall p, In p (tagged ns ms) -> hd_is (fst p) (fl_name (snd p)) (map wire k2) = false).
+      { intros p Hp. unfold tagged in Hp. apply in_map_iff in Hp. destruct Hp as (f & <- & Hf). cbn [fst snd].
+        rewrite <- (app_nil_r (map wire k2)). apply hd_is_app_false; [|reflexivity].
+        eapply Forall_impl; [|exact K2]. intros e (q & Hq & Hqe). cbn beta.
+        eapply elt_is_other; [exact Hqe|]. apply Hdisj; assumption. }
+      assert (P3 : length (firstn n vals) = length (tagged ns ms)).
+      { rewrite Hlt. match goal with H : (length (firstn n vals) =? n)%nat = true |- _ => apply Nat.eqb_eq in H; exact H end. }
+      assert (P4 : forall p x, In (p, x) (combine (tagged ns ms) (firstn n vals)) -> field_conf6 U (vconf U extra k) (snd p) x = true).
+      { intros p x Hpx. unfold tagged in Hpx.
+        match goal with H : forallb _ (combine ms (firstn n vals)) = true |- _ => rewrite forallb_forall in H; rename H into Hall end.
+        destruct p as [ns' f]. cbn [snd].
+        assert (Hfx : In (f, x) (combine ms (firstn n vals))).
+        { clear -Hpx. revert Hpx. generalize (firstn n vals). induction ms as [|f0 ms' IHm]; intros l Hpx; [destruct Hpx|].
+          destruct l as [|y l]; [destruct Hpx|]. cbn [map combine] in *. destruct Hpx as [H|H]; [injection H as _ <- <-; left; reflexivity|right; apply IHm; exact H]. }
+        exact (Hall (f, x) Hfx). }
+      destruct (fields_runs k cl IHk Hcl (tagged ns ms) (firstn n vals) k1 a1 (map wire k2) P1 Hnd1 P2 P3 P4 E1) as (_ & K1 & runs & S1 & L1 & V1).
+      rewrite map_app. split; [|split].
+      + apply Forall_app. split.
+        * eapply Forall_impl; [|exact K1]. intros e (p & Hp & Hpe). exists p. split; [apply in_app_iff; left; exact Hp|exact Hpe].
+        * eapply Forall_impl; [|exact K2]. intros e (p & Hp & Hpe). exists p. split; [apply in_app_iff; right; exact Hp|exact Hpe].
+      + cbn [groups_single]. rewrite S1. cbn [fst snd]. rewrite G2, andb_true_r. apply Nat.leb_le.
+        rewrite count_nonempty_lens, L1.
+        match goal with H : (Z.of_nat (length (filter _ (combine ms (firstn n vals)))) <=? 1) = true |- _ => rename H into Hcnt end.
+        assert (Hfl : forall (l : list value),
+                  length (filter (fun n0 => 0 <? n0) (map (fun px => occ6 (snd (fst px)) (snd px)) (combine (tagged ns ms) l)))
+                  = length (filter (fun fx => 0 <? occ6 (fst fx) (snd fx)) (combine ms l))).
+        { clear. induction ms as [|f0 ms' IHm]; intros l; [reflexivity|]. destruct l as [|y l]; [reflexivity|].
+          cbn [tagged map combine filter fst snd]. fold (tagged ns ms'). destruct (0 <? occ6 f0 y); cbn [length]; rewrite IHm; reflexivity. }
+        rewrite Hfl. lia.
+      + intros m Hm. cbn [items_match]. rewrite S1. rewrite (V1 m Hm), (M2 m Hm). reflexivity.
+  Qed.
+
 End Emitted.
